@@ -247,6 +247,12 @@ func Sleep(d time.Duration) {
 	Gate("time.sleep", nil, nil)
 }
 
+// SendCase is a `case Ch <- V:` of a select handed to Select.
+type SendCase struct {
+	Ch interface{}
+	V  interface{}
+}
+
 // Select replaces a blocking select whose cases are all plain receives. Channels whose element type is time.Time are
 // timers: time is not modelled, so a timer may fire whenever the scheduler lets the goroutine run - but it is only taken
 // when no other case is ready (an execution in which the timer has not expired yet is always possible). One gate,
@@ -254,7 +260,14 @@ func Sleep(d time.Duration) {
 func Select(chs ...interface{}) int {
 	cases := make([]reflect.SelectCase, len(chs))
 	timer := -1
+	hasSend := false
 	for i, c := range chs {
+		if sc, ok := c.(SendCase); ok {
+			// `case ch <- v:` - supported for buffered channels (enabled iff there is room)
+			cases[i] = reflect.SelectCase{Dir: reflect.SelectSend, Chan: reflect.ValueOf(sc.Ch), Send: reflect.ValueOf(sc.V)}
+			hasSend = true
+			continue
+		}
 		v := reflect.ValueOf(c)
 		cases[i] = reflect.SelectCase{Dir: reflect.SelectRecv, Chan: v}
 		if timer < 0 && v.Type().Elem() == reflect.TypeOf(time.Time{}) {
@@ -264,6 +277,39 @@ func Select(chs ...interface{}) int {
 	if Free || cur() == nil {
 		i, _, _ := reflect.Select(cases)
 		return i
+	}
+	if hasSend {
+		// with a send among the cases readiness must be decided WITHOUT touching the channels: a buffered channel is ready to
+		// receive from when it holds something (or is closed: then a non-blocking receive returns at once and consumes nothing),
+		// ready to send to when it has room
+		isReady := func(c reflect.SelectCase) bool {
+			if c.Dir == reflect.SelectSend {
+				return c.Chan.Cap() > 0 && c.Chan.Len() < c.Chan.Cap()
+			}
+			if c.Chan.Len() > 0 {
+				return true
+			}
+			j, _, ok := reflect.Select([]reflect.SelectCase{c, {Dir: reflect.SelectDefault}})
+			return j == 0 && !ok // closed
+		}
+		first := func() int {
+			for i, c := range cases {
+				if i != timer && c.Chan.Type().Elem() != reflect.TypeOf(time.Time{}) && isReady(c) {
+					return i
+				}
+			}
+			return -1
+		}
+		label := "ch.select"
+		if timer >= 0 {
+			label = "time.sleep"
+		}
+		Gate(label, func() bool { return timer >= 0 || first() >= 0 }, nil)
+		if i := first(); i >= 0 {
+			reflect.Select([]reflect.SelectCase{cases[i], {Dir: reflect.SelectDefault}})
+			return i
+		}
+		return timer
 	}
 	ready := func() int {
 		for i, c := range cases {
